@@ -537,19 +537,31 @@ inductive XOp where
   | create (name : String)
   | copynv
   | setvg (lv : List Rat)       -- the attribute VGLVLS assigned in place (same number of layers)
+  | points                      -- sliceDimensions(ROW=[..], COL=[..]): the point extraction (ROW, COL become POINTS)
 deriving Repr
+
+/-- the point extraction of a gridded file: the gridded variables are carried by (TSTEP, LAY, POINTS), the file has no
+ROW / COL any more, the origin is left alone; `updatemeta()` then finds no variable with standard dimensions -/
+def opPoints (s : St) : Option St :=
+  if !s.grid then none else
+  let vs := s.vars.map (fun v => if v.dims == stdG then { v with dims := ["TSTEP", "LAY", "POINTS"] } else
+    { v with dims := v.dims.filter (fun d => d != "ROW" && d != "COL") ++
+        (if v.dims.contains "ROW" || v.dims.contains "COL" then ["POINTS"] else []) })
+  some (updatemeta (copyVarsInto { shell s with grid := false, nR := 0, nC := 0 } { s with vars := vs } id))
 
 def xstep (s : St) : XOp → Option St
   | .op o => step s o
   | .create n => some (putVar s ⟨n, if s.grid then stdG else stdB⟩)
   | .copynv => some (copyNoVars s)
   | .setvg lv => if lv.length = s.nL + 1 then some (setVglvls s lv) else none
+  | .points => opPoints s
 
 /-- `create@NAME`, `copynv`, or an operation -/
 def parseXOp (t : String) : Option XOp :=
   match t.splitOn "@" with
   | ["create", n] => some (.create n)
   | ["copynv"] => some .copynv
+  | ["points"] => some .points
   | ["setvg", lv] => (parseList parseRat lv).map XOp.setvg
   | _ => (parseOp t).map XOp.op
 
